@@ -817,6 +817,17 @@ func (base *Type) mixin(derived *Type) {
 
 	if derived.enums == nil {
 		derived.enums = base.enums
+	} else {
+		// RFC7950 Sec 9.6.4.2 - a derived type keeps a subset of the enums, each with
+		// the value it has in the base type
+		for _, e := range derived.enums {
+			for _, b := range base.enums {
+				if b.ident == e.ident && !e.valSet {
+					e.val = b.val
+					e.valSet = true
+				}
+			}
+		}
 	}
 	if len(derived.base) == 0 {
 		derived.base = base.base
@@ -846,8 +857,17 @@ func (base *Type) mixin(derived *Type) {
 	// merge bits
 	if derived.bits == nil {
 		derived.bits = base.bits
-	} else if base.bits != nil {
-		derived.bits = append(derived.bits, base.bits...)
+	} else {
+		// RFC7950 Sec 9.7.4.2 - a derived type keeps a subset of the bits, each at the
+		// position it has in the base type
+		for _, e := range derived.bits {
+			for _, b := range base.bits {
+				if b.ident == e.ident && !e.positionSet {
+					e.Position = b.Position
+					e.positionSet = true
+				}
+			}
+		}
 	}
 
 	derived.format = base.format
